@@ -75,6 +75,30 @@ func runCLI(t *testing.T, cr *CaseResult, prop string, docs []string, args []str
 
 	sim.Today = parseToday(today)
 	sim.StopAtRootReturn = true // the process ends when main returns
+	// the command decodes its files itself, so its nodes have no labels:
+	// pointer-keyed maps (Document.Places) are ordered by content
+	sim.KeyFn = func(k, v interface{}) (string, bool) {
+		describe := func(x interface{}) (string, bool) {
+			n, ok := x.(gedcom.Node)
+			if !ok || gedcom.IsNil(n) {
+				return "", false
+			}
+			key := n.Tag().String() + "|" + n.Pointer() + "|" + n.Value()
+			for _, c := range n.Nodes() {
+				key += "|" + c.Tag().String() + " " + c.Value()
+			}
+			return key, true
+		}
+		key, ok := describe(k)
+		if !ok {
+			return "", false
+		}
+		// (Document.Places maps a place to the event it belongs to)
+		if vk, ok := describe(v); ok {
+			key += " <- " + vk
+		}
+		return key, true
+	}
 	run := &cliRun{files: map[string][]byte{}}
 
 	oldArgs, oldFlags, oldStdout := os.Args, flag.CommandLine, os.Stdout
